@@ -86,13 +86,13 @@ def build_solstat_bin():
     """Build the real solstat binary from /repo's working tree into work/target-bin."""
     tdir = os.path.join(WORK, "target-bin")
     t0 = time.time()
-    p = run(["cargo", "build", "--offline", "--quiet", "--bin", "solstat",
+    p = run(["cargo", "build", "--offline", "--quiet", "--release", "--bin", "solstat",
              "--manifest-path", os.path.join(REPO, "Cargo.toml"), "--target-dir", tdir],
             env=_cargo_env(), timeout=1800)
     if p.returncode != 0:
         raise ToolError("solstat binary build failed:\n%s" % p.stderr[-4000:])
     log("solstat binary built in %.1fs" % (time.time() - t0))
-    return os.path.join(tdir, "debug", "solstat")
+    return os.path.join(tdir, "release", "solstat")
 
 
 # ---------------------------------------------------------------------------
